@@ -1,7 +1,7 @@
 INIT Init
 NEXT Next
 CONSTANTS
-  MaxDepth = 6
+  MaxDepth = 5
   MaxVault = 4
 VIEW View
 CONSTRAINT Bound
